@@ -1281,6 +1281,11 @@ func c13r8(c *Ctx) {
 				}
 				n++
 				construct := fmt.Sprintf("%s#%s@offset%d", fnName(fn), buf.Name(), q.k)
+				// a helper's parameter that every caller fills with a buffer of fixed, sufficient length
+				if par, isPar := buf.(*ssa.Parameter); isPar && c13ParamMinLen(c, fn, par) >= q.k {
+					c.Ok(rule, construct, fmt.Sprintf("every caller passes a buffer of at least %d bytes", q.k), in.Pos())
+					continue
+				}
 				cuts := newCuts().AddEdges(c13LenGeqEdges(fn, buf, q.k)...)
 				var p []*ssa.BasicBlock
 				if q.phi != nil {
@@ -1466,4 +1471,53 @@ func c16r6(c *Ctx) {
 		c.Check(readsStr[k], rule, "import-string->export:"+k, "ExportSecSessionInfo reads "+k+" as a string", "ImportSecSessionInfo stores "+k+" as a string but ExportSecSessionInfo has no string lookup for it: a policy parsed from text loses "+k+" when it is rendered again", stored[k])
 	}
 	c.MinCount(rule, "attributes ImportSecSessionInfo stores as strings", len(names), 3)
+}
+
+// c13ParamMinLen: the smallest statically known length of the buffers passed for parameter par of fn over all
+// static call sites in the module (make([]byte, K) / array slices); 0 when unknown or when fn has no caller
+// or is exported (anyone may call it).
+func c13ParamMinLen(c *Ctx, fn *ssa.Function, par *ssa.Parameter) int64 {
+	if fn.Object() == nil || fn.Object().Exported() {
+		return 0
+	}
+	idx := -1
+	for i, q := range fn.Params {
+		if q == par {
+			idx = i
+		}
+	}
+	min, n := int64(-1), 0
+	for _, g := range c.ModFns {
+		for _, cs := range callsIn(g, fn.Object()) {
+			n++
+			args := cs.Common().Args
+			if idx < 0 || idx >= len(args) {
+				return 0
+			}
+			k := int64(0)
+			if l := c01LenLin(args[idx]); l.isConst() {
+				k = l.k
+			} else {
+				for _, o := range origins(g, args[idx]) {
+					l := c01LenLin(o)
+					if !l.isConst() {
+						return 0
+					}
+					if k == 0 || l.k < k {
+						k = l.k
+					}
+				}
+			}
+			if k <= 0 {
+				return 0
+			}
+			if min < 0 || k < min {
+				min = k
+			}
+		}
+	}
+	if n == 0 || min < 0 {
+		return 0
+	}
+	return min
 }
